@@ -512,6 +512,13 @@ class SpecArr:
         self.elem = elem
 
 
+class SymRange:
+    """range(lo, hi) with symbolic bounds (as an index it selects rows lo..hi-1, like a slice)."""
+
+    def __init__(self, lo, hi):
+        self.lo, self.hi = lo, hi
+
+
 class FunVal:
     """Function value (callable of the repo, or a function parameter with an abstract contract)."""
 
